@@ -484,7 +484,18 @@ void do_run(json const& run, verif::NdjsonWriter& w)
                     thr_in.push_back({{"pdg", t["pdg"].get<int>()}, {"mss", t["mss"].get<int>()},
                                       {"ms", t["ms"].get<int>()}, {"rE_thr", t["E"].get<double>()}});
                 }
-            prob.sim = std::make_shared<SimParams>(si);
+            try
+            {
+                prob.sim = std::make_shared<SimParams>(si);
+            }
+            catch (std::exception const& ex)
+            {
+                // the public constructor refused its input: a legitimate outcome (decided by the spec)
+                events.push_back({{"e", "Refused"}, {"run", rid}, {"thr_in", thr_in}, {"rE_zero", 0.0},
+                                  {"what", std::string(ex.what()).substr(0, 300)}});
+                rank_and_write(events, w);
+                return;
+            }
         }
         json drv = json::object();
         if (sh.scripted)
